@@ -409,7 +409,7 @@ func (w *world) eval(line string) (out evalOut) {
 		leb := slices.Clone(be)
 		slices.Reverse(leb)
 		out.model = []string{"MUL " + m + " " + args[0] + " " + vh.Hex(leb) + " " + args[1]}
-	case "AUMSM":
+	case "AUMSM", "AUMSMC":
 		var ks []*big.Int
 		var ps []any
 		acc := c.id()
@@ -450,8 +450,16 @@ func (w *world) eval(line string) (out evalOut) {
 			slices.Reverse(leb)
 			terms[i] = hexZ(ks[i]) + ";" + vh.Hex(leb) + ";" + strings.Split(args[i], ";")[1]
 		}
-		out.model = []string{"MSM " + m + " " + strings.Join(terms, " ")}
-	case "MSM", "MSMN", "LMSM":
+		if f[0] == "AUMSMC" {
+			out.model = []string{"MSMC " + m + " " + strings.Join(terms, " ")}
+		} else {
+			out.model = []string{"MSM " + m + " " + strings.Join(terms, " ")}
+		}
+	case "MSM", "MSMN", "MSMR", "MSMC", "LMSM", "LMSMC":
+		// MSM*: Curve.MultiScalarMul; LMSM*: MultiScalarMulLowLevel on raw byte strings.
+		// model: plain = naive sum and bucket-algorithm model, N = naive only, C = bucket-algorithm model only
+		// (large lengths), R = none (math/big reference only)
+		low := strings.HasPrefix(f[0], "LMSM")
 		var ss []any
 		var raws [][]byte
 		var ps []any
@@ -467,7 +475,7 @@ func (w *world) eval(line string) (out evalOut) {
 			ps = append(ps, p)
 			var k *big.Int
 			var leb []byte
-			if f[0] != "LMSM" {
+			if !low {
 				kk, err := parseHex(tf[0])
 				if err != nil {
 					out.skip = err.Error()
@@ -488,7 +496,7 @@ func (w *world) eval(line string) (out evalOut) {
 			acc = c.add(acc, c.mul(k, rp))
 			terms = append(terms, hexZ(k)+";"+vh.Hex(leb)+";"+tf[1])
 		}
-		if f[0] != "LMSM" {
+		if !low {
 			if g.msm == nil {
 				out.skip = "no MultiScalarMul"
 				return out
@@ -512,11 +520,16 @@ func (w *world) eval(line string) (out evalOut) {
 			}
 		}
 		out.ref = c.text(acc)
-		mop := "MSM "
-		if f[0] == "MSMN" {
-			mop = "MSMN "
+		switch f[0] {
+		case "MSMR":
+			out.model = nil
+		case "MSMN":
+			out.model = []string{strings.TrimSpace("MSMN " + m + " " + strings.Join(terms, " "))}
+		case "MSMC", "LMSMC":
+			out.model = []string{strings.TrimSpace("MSMC " + m + " " + strings.Join(terms, " "))}
+		default:
+			out.model = []string{strings.TrimSpace("MSM " + m + " " + strings.Join(terms, " "))}
 		}
-		out.model = []string{strings.TrimSpace(mop + m + " " + strings.Join(terms, " "))}
 	default:
 		out.skip = "unknown op " + f[0]
 	}
@@ -791,6 +804,11 @@ func agree(line string, impl string, model []string) (bool, string) {
 			return false, "implementation " + impl + " != window-algorithm model " + mf[1]
 		}
 		return true, ""
+	case "MSMC", "LMSMC", "AUMSMC":
+		if mo != impl {
+			return false, "implementation " + impl + " != bucket-algorithm model " + mo
+		}
+		return true, ""
 	case "MSMN":
 		if mo != impl {
 			return false, "implementation " + impl + " != sum k_i*P_i of the affine model " + mo
@@ -878,10 +896,15 @@ func keyOf(line string) string {
 	}
 	if len(f) > 1 && f[0] != "PAIR" && f[0] != "PAIRND" && f[0] != "EDMONT" {
 		k := op + "-" + strings.ReplaceAll(f[1], "/", "-")
-		if f[0] == "MSMN" {
+		switch f[0] {
+		case "MSMN", "MSMR", "MSMC":
 			k = "msm-" + strings.ReplaceAll(f[1], "/", "-")
+		case "LMSMC":
+			k = "lmsm-" + strings.ReplaceAll(f[1], "/", "-")
+		case "AUMSMC":
+			k = "aumsm-" + strings.ReplaceAll(f[1], "/", "-")
 		}
-		if (f[0] == "MSM" || f[0] == "LMSM" || f[0] == "MSMN") && len(f) == 2 {
+		if (f[0] == "MSM" || f[0] == "LMSM" || f[0] == "MSMN" || f[0] == "MSMR" || f[0] == "MSMC" || f[0] == "LMSMC") && len(f) == 2 {
 			return "msm-empty"
 		}
 		return k
@@ -905,7 +928,7 @@ func whatOf(line string) string {
 		return "correspondence SetAffine = on_curve; theorem set_affine_iff_on_curve"
 	case "MUL", "BASEMUL", "LMUL", "AUMUL":
 		return "correspondence ScalarMul = waff_mul and = scalar_mul_window (ScalarMul.v); theorem scalar_mul_window_correct"
-	case "MSM", "LMSM", "MSMN", "AUMSM":
+	case "MSM", "LMSM", "MSMN", "AUMSM", "MSMR", "MSMC", "LMSMC", "AUMSMC":
 		return "correspondence MultiScalarMul = sum k_i*P_i and = msm (ScalarMul.v); theorem msm_correct"
 	case "F":
 		return "correspondence field operation = Zp / Fp2 (Fld.v, Curve.v)"
@@ -919,26 +942,82 @@ func whatOf(line string) string {
 	return "C14 correspondence"
 }
 
-// shrinkMSM greedily drops terms of a multi-scalar case while the implementation still disagrees
-// with the math/big reference.
+// shrinkMSM simplifies a failing multi-scalar case while the implementation still disagrees with the
+// math/big reference: first it zeroes scalars in halving blocks (the vector length — hence the window width —
+// stays the same), then, for short vectors, it drops terms.  Bounded by a time budget.
+var shrinkDeadline time.Time
+
+func isMSMOp(op string) bool {
+	switch op {
+	case "MSM", "MSMN", "MSMR", "MSMC", "LMSM", "LMSMC", "AUMSM", "AUMSMC":
+		return true
+	}
+	return false
+}
+
 func (w *world) shrinkMSM(line string) string {
 	f := strings.Split(line, " ")
-	if len(f) < 4 || (f[0] != "MSM" && f[0] != "MSMN" && f[0] != "LMSM" && f[0] != "AUMSM") {
+	if len(f) < 4 || !isMSMOp(f[0]) {
 		return line
 	}
-	bad := func(l string) bool {
-		e := w.eval(l)
+	if shrinkDeadline.IsZero() {
+		shrinkDeadline = time.Now().Add(60 * time.Second)
+	}
+	bad := func(terms []string) bool {
+		if time.Now().After(shrinkDeadline) {
+			return false
+		}
+		e := w.eval(f[0] + " " + f[1] + " " + strings.Join(terms, " "))
 		return e.skip == "" && e.ref != "" && e.ref != e.impl
 	}
-	terms := f[2:]
-	for changed := true; changed; {
-		changed = false
-		for i := 0; i < len(terms) && len(terms) > 1; i++ {
-			cand := append(append([]string{}, terms[:i]...), terms[i+1:]...)
-			if bad(f[0] + " " + f[1] + " " + strings.Join(cand, " ")) {
+	terms := append([]string{}, f[2:]...)
+	zero := "0"
+	if strings.HasPrefix(f[0], "LMSM") {
+		// keep the byte length of each string (it determines the number of windows)
+		zero = ""
+	}
+	zeroed := func(t string) string {
+		tf := strings.SplitN(t, ";", 2)
+		if zero == "" {
+			if tf[0] == "-" {
+				return t
+			}
+			return strings.Repeat("0", len(tf[0])) + ";" + tf[1]
+		}
+		return zero + ";" + tf[1]
+	}
+	for blk := (len(terms) + 1) / 2; blk >= 1; blk /= 2 {
+		for start := 0; start < len(terms); start += blk {
+			end := start + blk
+			if end > len(terms) {
+				end = len(terms)
+			}
+			cand := append([]string{}, terms...)
+			changed := false
+			for i := start; i < end; i++ {
+				if z := zeroed(cand[i]); z != cand[i] {
+					cand[i] = z
+					changed = true
+				}
+			}
+			if changed && bad(cand) {
 				terms = cand
-				changed = true
-				i--
+			}
+		}
+		if blk == 1 {
+			break
+		}
+	}
+	if len(terms) <= 48 {
+		for changed := true; changed; {
+			changed = false
+			for i := 0; i < len(terms) && len(terms) > 1; i++ {
+				cand := append(append([]string{}, terms[:i]...), terms[i+1:]...)
+				if bad(cand) {
+					terms = cand
+					changed = true
+					i--
+				}
 			}
 		}
 	}
